@@ -378,13 +378,6 @@ func (fr *Frame) applyContract(instr ssa.Instruction, bc *BoundContract, sig *ty
 			}
 		}
 	}
-	for _, cl := range bc.C.Clauses {
-		if cl.Kind == "sets" {
-			if err := fr.applySet(env, cl.Exprs[0], cl.Exprs[1], st, reach); err != nil {
-				fr.unsupported(instr.Pos(), "sets of %s: %v", bc.Full, err)
-			}
-		}
-	}
 	// results
 	var res *Val
 	if bc.C.Pure {
@@ -412,6 +405,26 @@ func (fr *Frame) applyContract(instr ssa.Instruction, bc *BoundContract, sig *ty
 	for _, l := range leavesOf(rt) {
 		if lv := res.at(l.path); lv.T != nil && lv.T.Sort == SV {
 			c.assumeExisting(st, lv.T, reach)
+		}
+	}
+	// ghost assignments: the value is read in the state before the call (results are visible)
+	{
+		senv := env.child()
+		senv.st = pre
+		senv.old = pre
+		bc.bindResults(senv, res)
+		for _, cl := range bc.C.Clauses {
+			if cl.Kind == "sets" {
+				v, err := senv.eval(cl.Exprs[1])
+				if err == nil {
+					tenv := *senv
+					tenv.st = st
+					err = c.assign(&tenv, cl.Exprs[0], v, st)
+				}
+				if err != nil {
+					fr.unsupported(instr.Pos(), "sets of %s: %v", bc.Full, err)
+				}
+			}
 		}
 	}
 	post := env.child()
@@ -457,9 +470,52 @@ func (fr *Frame) havocLoc(env *Env, x Expr, st *State, reach *Term) error {
 			return nil
 		}
 	}
+	// effects(f): whatever the function value f may modify - the modifies/sets of its contract when f is a function
+	// literal of the calling function that has one, otherwise everything
+	if call, ok := x.(*ECall); ok {
+		if id, ok := call.Fun.(*EIdent); ok && id.Name == "effects" && len(call.Args) == 1 {
+			fv, err := env.eval(call.Args[0])
+			if err != nil {
+				return err
+			}
+			cenv, cbc := fr.closureEnv(fv, st)
+			if cenv == nil || cbc.C.Trusted {
+				c.havocAll(st, reach, nil)
+				c.V.assumeGlobalAxioms(c, st, reach)
+				return nil
+			}
+			for _, cl := range cbc.C.Clauses {
+				var xs []Expr
+				switch cl.Kind {
+				case "modifies":
+					xs = cl.Exprs
+				case "sets":
+					root := cl.Exprs[0]
+					for {
+						if ix, ok := root.(*EIndex); ok {
+							root = ix.X
+							continue
+						}
+						break
+					}
+					xs = []Expr{root}
+				}
+				for _, t := range xs {
+					if err := fr.havocLoc(cenv, t, st, reach); err != nil {
+						c.havocAll(st, reach, nil)
+						c.V.assumeGlobalAxioms(c, st, reach)
+						return nil
+					}
+				}
+			}
+			// the literal may also allocate
+			c.tick(st, reach)
+			return nil
+		}
+	}
 	// fields(p): every field of the struct p points to;  deref(p): the cell p points to
 	if call, ok := x.(*ECall); ok {
-		if id, ok := call.Fun.(*EIdent); ok && (id.Name == "fields" || id.Name == "deref") && len(call.Args) == 1 {
+		if id, ok := call.Fun.(*EIdent); ok && (id.Name == "fields" || id.Name == "deref" || id.Name == "cell") && len(call.Args) == 1 {
 			ne := *env
 			ne.st = st
 			targets := map[string][]*Term{}
@@ -620,7 +676,7 @@ func (c *Ctx) assign(env *Env, target Expr, v *Val, st *State) error {
 			cur := c.get(st, key, srt)
 			// nested store
 			idxs := []*Term{recv.T}
-			for _, a := range args {
+			for _, a := range afArgs(m, args) {
 				idxs = append(idxs, a.T)
 			}
 			c.set(st, key, nestedStore(cur, idxs, v.T))
@@ -713,6 +769,9 @@ func (c *Ctx) afKey(m *types.Func) (string, Sort, error) {
 	}
 	srt := rs
 	for i := sig.Params().Len() - 1; i >= 0; i-- {
+		if isContextType(sig.Params().At(i).Type()) {
+			continue // abstract fields do not depend on the request context (standing assumption)
+		}
 		ps, ok := sortOf(sig.Params().At(i).Type())
 		if !ok {
 			return "", "", fmt.Errorf("pure method %s takes a composite", m.FullName())
@@ -732,13 +791,14 @@ func (c *Ctx) pureMethodApp(st *State, m *types.Func, recv *Val, args []*Val) (*
 		return nil, fmt.Errorf("pure method on composite receiver")
 	}
 	t := tSelect(c.get(st, key, srt), recv.T)
+	args = afArgs(m, args)
 	for _, a := range args {
 		if a.T == nil {
 			return nil, fmt.Errorf("pure method with composite argument")
 		}
 		t = tSelect(t, a.T)
 	}
-	if len(args) == 0 {
+	if len(args) == 0 && m.Type().(*types.Signature).Params().Len() == 0 {
 		t = c.bridgedRead(st, m, recv.T, t)
 	}
 	sig := m.Type().(*types.Signature)
@@ -1004,4 +1064,60 @@ func (c *Ctx) pureAxiom(f *types.Func) {
 	}
 	body := tImp(tAnd(req...), tAnd(ens...))
 	c.sc.gaxioms = append(c.sc.gaxioms, fmt.Sprintf("(forall (%s) (! %s :pattern (%s)))", strings.Join(binders, " "), body.S, res.T.S))
+}
+
+// closureEnv builds the environment of the contract of the function literal held by fv (a value of the calling
+// function): captured variables are the caller's, parameters are arbitrary. Nil if fv is not such a literal.
+func (fr *Frame) closureEnv(fv *Val, st *State) (*Env, *BoundContract) {
+	c := fr.c
+	if fv == nil || fv.Clo == nil || fv.Clo.Fn == nil {
+		return nil, nil
+	}
+	cbc := c.V.contractForFn(fv.Clo.Fn)
+	if cbc == nil || cbc.Anon == nil {
+		return nil, nil
+	}
+	fn := fv.Clo.Fn
+	cenv := newEnv(c, cbc.Pkg)
+	cenv.st = st
+	cenv.old = nil
+	var ps []*Val
+	for _, p := range fn.Params {
+		pv := c.freshVal("cb_"+p.Name(), p.Type())
+		for _, l := range leavesOf(p.Type()) {
+			if lv := pv.at(l.path); lv.T != nil && lv.T.Sort == SV {
+				c.assumeExisting(st, lv.T, tTrue)
+			}
+		}
+		ps = append(ps, pv)
+	}
+	cbc.bindParams(cenv, nil, ps, nil)
+	cenv.free = map[string]*Val{}
+	for i, v := range fn.FreeVars {
+		if i < len(fv.Clo.Bind) {
+			cenv.free[v.Name()] = fv.Clo.Bind[i]
+		}
+	}
+	return cenv, cbc
+}
+
+func isContextType(t types.Type) bool {
+	n, ok := t.(*types.Named)
+	return ok && n.Obj().Pkg() != nil && n.Obj().Pkg().Path() == "context" && n.Obj().Name() == "Context"
+}
+
+// afArgs drops context.Context arguments: abstract fields are indexed by the receiver and the other arguments.
+func afArgs(m *types.Func, args []*Val) []*Val {
+	sig := m.Type().(*types.Signature)
+	if len(args) != sig.Params().Len() {
+		return args
+	}
+	var out []*Val
+	for i, a := range args {
+		if isContextType(sig.Params().At(i).Type()) {
+			continue
+		}
+		out = append(out, a)
+	}
+	return out
 }
